@@ -415,9 +415,14 @@ fn coords(p: &FP, inp: &ProverInputs, roles: &HashMap<u32, (u8, u32, u32)>, nm: 
             other += 1;
         }
     }
+    if LIGHT.load(std::sync::atomic::Ordering::Relaxed) {
+        // long proofs: only the coordinates on H and the G_k (where the nonces sit) and the count of stray coordinates
+        return json!({"H": sl(&h), "G": g.iter().map(sl).collect::<Vec<_>>(), "Gi": [], "Hi": [], "other": other});
+    }
     json!({"H": sl(&h), "G": g.iter().map(sl).collect::<Vec<_>>(), "Gi": gi.iter().map(sl).collect::<Vec<_>>(),
         "Hi": hi.iter().map(sl).collect::<Vec<_>>(), "other": other})
 }
+pub static LIGHT: std::sync::atomic::AtomicBool = std::sync::atomic::AtomicBool::new(false);
 
 pub fn prove_trace(rec: &CallRec, inp: &ProverInputs, toks: &mut Toks, arith: bool, out: &mut Vec<Value>) {
     use tari_bulletproofs_plus::traits::{Decompressable, FixedBytesRepr};
